@@ -40,6 +40,8 @@ var c02Events = []c02Ev{
 	{"svc:badweight", false, "route add a / http://a:80/ weight abc", false},
 	{"svc:unknown", false, "hello world", false},
 	{"svc:inf", false, "route add a / http://a:80/ weight Inf", false},
+	{"svc:big-invalid-early-error", false, "route add a / http://a:80/\nroute oops\n" + strings.Repeat("route add pad /padding/with/a/long/path/to/fill/the/buffer http://pad:80/\n", 200), false},
+	{"svc:big-valid", false, strings.Repeat("route add pad /padding/with/a/long/path/to/fill/the/buffer http://pad:80/\n", 150) + "route add a / http://a:80/", true},
 	{"svc:denormal", false, "route add a / http://a:80/ weight 5e-324\nroute add b / http://b:80/ weight 1e308", true},
 	{"man:empty", true, "", true},
 	{"man:del", true, "route del a", true},
@@ -78,7 +80,7 @@ func c02Current(s string) {
 
 func TestVerifC02Hist(t *testing.T) {
 	L := ev.Begin("C02", "c02-hist", "model_checking",
-		"explicit-state BFS over update histories through the real main.watchBackend with a fake registry.Backend: 8 service updates (valid A/B/empty/extreme weights, syntax error, bad weight, unknown command, non-finite weight) and 5 manual updates (empty, del, add, invalid, weight matching nothing); state = (svccfg, mancfg, last installed text); invariant in every state: active table == table of the last valid concatenation. non-trivial = transition delivering an invalid update or an update after an invalid one")
+		"explicit-state BFS over update histories through the real main.watchBackend with a fake registry.Backend: 10 service updates (valid A/B/empty/extreme weights, a 10 kB valid text, syntax error, bad weight, unknown command, non-finite weight, a 15 kB text whose second line is invalid) and 5 manual updates (empty, del, add, invalid, weight matching nothing); state = (svccfg, mancfg, last installed text); invariant in every state: active table == table of the last valid concatenation. non-trivial = transition delivering an invalid update or an update after an invalid one")
 	maxDepth := 4
 	if ev.Thorough() {
 		maxDepth = 64
